@@ -622,8 +622,9 @@ static void check_desc(FILE *o, const asn_TYPE_descriptor_t *td, int depth, int 
         fprintf(o, " nel=%u\n", td->elements_count);
     }
     if(k == K_UNKNOWN) DERR("%s: unknown op table", td->name);
+    /* an open type is decoded by its holder (OPEN_TYPE_*_get): its own decoder slots are empty by design */
     if(!td->op->free_struct || !td->op->print_struct || !td->op->compare_struct
-       || !td->op->ber_decoder || !td->op->der_encoder || !td->op->xer_decoder || !td->op->xer_encoder)
+       || (!td->op->ber_decoder && k != K_OPEN) || !td->op->der_encoder || (!td->op->xer_decoder && k != K_OPEN) || !td->op->xer_encoder)
         DERR("%s: missing basic op slot", td->name);
     if(!td->xml_tag) DERR("%s: no xml tag", td->name);
     if(td->tags_count > td->all_tags_count) DERR("%s: tags_count > all_tags_count", td->name);
